@@ -5,6 +5,8 @@
 
 package rtcp
 
+import "math"
+
 // Ghost specification functions used by the contracts in verif_contracts.go.
 // They are only compiled with the build tag "verif"; nothing in the package refers to them.
 // They are written from the RFC wire layouts and the property statements, not from the encoders/decoders.
@@ -160,3 +162,17 @@ func specChunksLen(cs []SourceDescriptionChunk, n int) int {
 }
 
 func specItemOK(it SourceDescriptionItem) bool { return it.Type != SDESEnd && len(it.Text) <= 255 }
+
+// ---- draft-alvestrand-rmcat-remb-03 section 2.2: bitrate = mantissa * 2^exp ----
+
+// specPow2f is 2^e as a float32, for 0 <= e <= 127.
+func specPow2f(e int) float32 { return math.Float32frombits(uint32(e+127) << 23) }
+
+// specRembValue is the value denoted by an 18-bit mantissa and a 6-bit exponent.
+func specRembValue(mantissa uint32, exp uint8) float32 {
+	return float32(mantissa&0x3FFFF) * specPow2f(int(exp&63))
+}
+
+func specRembMantissa(b []byte) uint32 {
+	return uint32(byteAt(b, 17)&3)<<16 | uint32(byteAt(b, 18))<<8 | uint32(byteAt(b, 19))
+}
